@@ -53,7 +53,7 @@ static void run(unsigned pm, int k, const vector<pair<int, int>> &targets, const
             Point tp(targets[i].first * S, targets[i].second * S); ConnRef *cn;
             if (c.toJunction) { JunctionRef *j = new JunctionRef(r, tp); js.push_back(j); cn = (i % 2 == 0) ? new ConnRef(r, ConnEnd(sh, 1), ConnEnd(j)) : new ConnRef(r, ConnEnd(j), ConnEnd(sh, 1)); }
             else { js.push_back(nullptr); cn = (i % 2 == 0) ? new ConnRef(r, ConnEnd(sh, 1), ConnEnd(tp)) : new ConnRef(r, ConnEnd(tp), ConnEnd(sh, 1)); }
-            if (c.cps && (i == 0 || c.cpDirs)) { vector<Checkpoint> v; cpl[i].push_back(Point(4.5 * S, 4.5 * S)); if (c.cps > 1) cpl[i].push_back(Point(-0.5 * S, 4.5 * S)); if (i % 2) reverse(cpl[i].begin(), cpl[i].end()); for (auto &p : cpl[i]) v.push_back(c.cpDirs ? Checkpoint(p, (c.cpDirs & 1) ? (ConnDirFlags)ConnDirLeft : (ConnDirFlags)ConnDirAll, (c.cpDirs & 2) ? (ConnDirFlags)ConnDirDown : (ConnDirFlags)ConnDirAll) : Checkpoint(p)); cn->setRoutingCheckpoints(v); }
+            if (c.cps && (i == 0 || (c.cpDirs && c.cpDirs != 4))) { vector<Checkpoint> v; cpl[i].push_back(c.cpDirs == 4 ? Point(3 * S, 4.5 * S) : Point(4.5 * S, 4.5 * S)); if (c.cps > 1) cpl[i].push_back(Point(-0.5 * S, 4.5 * S)); if (i % 2) reverse(cpl[i].begin(), cpl[i].end()); for (auto &p : cpl[i]) v.push_back(c.cpDirs == 4 ? Checkpoint(p, (ConnDirFlags)ConnDirLeft, (ConnDirFlags)ConnDirRight) : c.cpDirs ? Checkpoint(p, (c.cpDirs & 1) ? (ConnDirFlags)ConnDirLeft : (ConnDirFlags)ConnDirAll, (c.cpDirs & 2) ? (ConnDirFlags)ConnDirDown : (ConnDirFlags)ConnDirAll) : Checkpoint(p)); cn->setRoutingCheckpoints(v); }
             cs.push_back(cn);
         }
         if (!c.early) { r->processTransaction(); nTrans++; }
@@ -105,6 +105,7 @@ static void phase(const Cfg &c, const vector<unsigned> &pinsets, int maxk, int t
     ctx.phase(cfg_str(c) + mcx::fmt(" x %zu pin sets x up to %d connectors x targets", pinsets.size(), maxk));
     for (unsigned pm : pinsets) for (int k = 1; k <= maxk; k++) for (size_t t1 = 0; t1 < T.size(); t1 += tstep) for (size_t t2 = (k == 2 ? 0 : T.size() - 1); t2 < T.size(); t2 += (k == 2 ? 3 : 1)) {
         if (k == 2 && t2 == t1) continue; if (ctx.stopped()) return;
+        if (c.cpDirs == 4 && T[t1].first != 4) continue;   // the straight-through checkpoint (first connector only, which runs pin -> target) must be left to the right: only targets in the column right of it give the ray a line to turn on
         if (!ctx.next()) continue; ctx.sample(mcx::fmt("pinmask %u k=%d targets #%zu #%zu", pm, k, t1, t2), 1);
         run(pm, k, {T[t1], T[t2]}, c); ctx.done_case(); }
 }
@@ -167,6 +168,9 @@ int main(int argc, char **argv) {
         // one checkpoint only: at (90,90) every pin lies to its left and every target above it, so both restrictions can be met; a second restricted
         // checkpoint at the far left has nothing to its left to arrive from
         if (ortho) for (int cd = 1; cd <= 3; cd++) for (int ncp = 1; ncp <= 1; ncp++) for (int tj = 0; tj < 2; tj++) { Cfg e{(bool)ortho, 3, true, 1, 0, 0, ncp, (bool)tj, heap}; e.cpDirs = cd; phase(e, few, 2, tj ? 3 : 2); }
+        // a checkpoint the route has to pass STRAIGHT THROUGH (arrive from the left, leave to the right), placed nearer to the shape than to the targets' column: the segment before it
+        // is a middle segment that nudging centres in its channel, and the checkpoint is one of the channel's limits
+        if (ortho) for (int mv = 0; mv < 3; mv++) for (int tj = 0; tj < 2; tj++) { Cfg e{(bool)ortho, 3, true, 1, 0, mv, 1, (bool)tj, heap}; e.cpDirs = 4; phase(e, few, 2, tj ? 3 : 2); }
         for (int mv = 1; mv < 3; mv++) { Cfg e{(bool)ortho, 3, true, 1, 0, mv, 0, false, heap}; e.early = true; phase(e, few, 2, 2); Cfg ej{(bool)ortho, 3, true, 1, 0, mv, 0, true, heap}; ej.early = true; phase(ej, few, 2, 3); }
     }
     // the full cross product (quick: follow-ups nothing/translate/resize; thorough: all seven follow-ups)
